@@ -113,3 +113,49 @@ Fixpoint chk_steps (f : flags) (lim cap : N) (tbl : list tx) (ts : tpool)
 Definition check (c : (bool * bool * bool * bool) * (N * N) * list tx * list (sop * option (list N))) : bool :=
   let '((f16, f18, f21, f23), (lim, cap), tbl, steps) := c in
   chk_steps (mkFlags f16 f18 f21 f23) lim cap tbl (mkT empty []) steps.
+
+(* ---------- gated schedules on the real pool vs the locked fine-grained semantics ---------- *)
+(* One case = one pool life driven through a deterministic schedule of sub-steps (goroutines parked at
+   gates inside the executed store: after add's existence check, after MarkExecuted's record write, before
+   an UnMarkExecuted delete); after each step at which all goroutines are parked, blocked or finished the
+   harness records the pending list (table indices, in order) and which table transactions have an
+   executed record. *)
+Inductive slop :=
+| SLCheck (tid i : N) | SLPush (tid : N)
+| SLMarkW (tid : N) (txs ev : list N) | SLMarkR (tid : N)
+| SLUnmarkB (tid : N) (txs ev : list N) | SLUnmarkN (tid : N)
+| SLAdd (i : N) | SLMark (txs ev : list N) | SLPack | SLTick (hs : list N).
+
+Definition lop_of (tbl : list tx) (o : slop) : lop :=
+  match o with
+  | SLCheck tid i => LCheck tid (nth_tx tbl i)
+  | SLPush tid => LPush tid
+  | SLMarkW tid txs ev => LMarkW tid (sel tbl txs) (hashes (sel tbl ev))
+  | SLMarkR tid => LMarkR tid
+  | SLUnmarkB tid txs ev => LUnmarkB tid (sel tbl txs) (hashes (sel tbl ev))
+  | SLUnmarkN tid => LUnmarkN tid
+  | SLAdd i => LOp (OAdd (nth_tx tbl i))
+  | SLMark txs ev => LOp (OMark (sel tbl txs) (hashes (sel tbl ev)))
+  | SLPack => LOp OPack
+  | SLTick hs => LOp (OExpire (hashes (sel tbl hs)))
+  end.
+
+Fixpoint idxs_from (n : N) (l : list tx) : list (N * tx) :=
+  match l with [] => [] | t :: r => (n, t) :: idxs_from (n + 1) r end.
+
+Definition exec_obs_ok (tbl : list tx) (s : pool) (ex : list N) : bool :=
+  forallb (fun it => Bool.eqb (memN (thash (snd it)) (exec_keys s)) (memN (fst it) ex)) (idxs_from 0 tbl).
+
+Fixpoint chk_sched (lim : N) (tbl : list tx) (s : lstate) (steps : list (slop * option (list N * list N))) : bool :=
+  match steps with
+  | [] => true
+  | (o, obs) :: r =>
+    let s' := lstep lim s (lop_of tbl o) in
+    match obs with
+    | None => true
+    | Some (recv, ex) => txs_eqb (received (lpool s')) (sel tbl recv) && exec_obs_ok tbl (lpool s') ex
+    end && chk_sched lim tbl s' r
+  end.
+
+Definition check_sched (c : N * list tx * list (slop * option (list N * list N))) : bool :=
+  let '(lim, tbl, steps) := c in chk_sched lim tbl linit steps.
